@@ -180,7 +180,8 @@ func (fs FileServer) serveFile(w http.ResponseWriter, r *http.Request) (int, err
 		acceptEncoding := strings.Split(r.Header.Get("Accept-Encoding"), ",")
 		accepted := false
 		for _, acc := range acceptEncoding {
-			if strings.TrimSpace(acc) == encoding.name {
+			// only the optional white space HTTP allows around a list element (SP / HTAB)
+			if strings.Trim(acc, " \t") == encoding.name {
 				accepted = true
 				break
 			}
